@@ -98,8 +98,8 @@ def r1_r2(ctx, Fs):
                     d = dtab.is_discr_eq(leaf)
                     if d is None:
                         return False          # a zero test inside the determinant (gated assembly, decided by C10.R1's identity): irrelevant for the sign map
-                    k = d[1] if d[1] < 128 else d[1]
-                    return (k == val) == d[2]
+                    k = d[1] if d[1] < 128 else d[1] - 256          # (an i8 discriminant read as u8: Ordering::Less)
+                    return (k == (val if val < 128 else val - 256)) == d[2]
                 # walk the match on the sign only (its subject may itself contain conditionals: they are not touched)
                 def holds(c, valuation=valuation):
                     if c.op == 'not':
